@@ -436,3 +436,21 @@ def reader_scratch_body(c1, c2, c3, c4, level, s1, s2, oi0, endnone):
     bt.CodeFence._open_info = None
     bt.HtmlBlock._end_cond = None
     return a == b
+
+
+# ------------------------------------------------------------------------------------------ replays
+
+def _twice(fn):
+    """C11 is about histories: CrossHair runs a lemma many times in one process, so a failing path may depend on
+    what the previous iteration left behind.  The concrete replay therefore runs the lemma TWICE in one fresh
+    process (history: the same call once before) and reports a violation if either run fails."""
+    def rp(*args):
+        r1 = fn(*args)
+        r2 = fn(*args)
+        return (not (r1 and r2)), 'first run in a fresh process: %s; same call again in the same process: %s' % (r1, r2)
+    return rp
+
+
+g1_scratch.__lemma__.replay = _twice(g1_scratch)
+g2_restoration.__lemma__.replay = _twice(g2_restoration)
+g3_faults.__lemma__.replay = _twice(g3_faults)
